@@ -7,7 +7,7 @@
    law flags computed from the implementation's own answers. *)
 From Coq Require Import Lia.
 From GJ Require Import Base Kernel Series Ring PairSpec Pairs PairProofs Obj ObjSpec ObjProofs BoxLaws ContainsBoxes CoversBoxes
-  JordanRing JordanRect.
+  JordanRing JordanRect ObjSym.
 Open Scope Z_scope.
 
 Theorem C09_within_is_contains_swapped : forall a b, o_within a b = o_contains b a.
@@ -67,6 +67,31 @@ Theorem C09_geometry_intersects_symmetric : forall a b, no_hole_pair a b ->
   g_intersects (g_of_shape a) (g_of_shape b) = g_intersects (g_of_shape b) (g_of_shape a).
 Proof. exact g_intersects_sym. Qed.
 
+(* ... and at the object level: any two trees of the eleven modelled kinds (Features, the five
+   collections, nested; rectangles well-formed), provided no polygon with holes of A faces a polygon
+   with holes of B.  Both answers are "some leaf of B intersects some leaf of A". *)
+Theorem C09_intersects_symmetric : forall a b, obj_wf a -> obj_wf b ->
+  (forall x y, In x (sleaves a) -> In y (sleaves b) -> no_hole_pair x y) ->
+  o_intersects a b = o_intersects b a.
+Proof. exact o_intersects_sym. Qed.
+Theorem C09_intersects_is_leafwise : forall a b, obj_wf a -> obj_wf b ->
+  (o_intersects a b = true <->
+   exists x y, In x (sleaves a) /\ In y (sleaves b) /\ g_intersects (g_of_shape y) (g_of_shape x) = true).
+Proof. exact o_intersects_flat. Qed.
+(* non-vacuity: a GeometryCollection holding a polygon with a hole and a line, against a Feature
+   of a collection of a point (inside the hole), a rectangle and a far line *)
+Example C09_symmetric_hypotheses_hold_somewhere :
+  let a := OColl 3 [OPoly [[(0,0);(8,0);(8,8);(0,8);(0,0)]; [(2,2);(4,2);(4,4);(2,4);(2,2)]]; OLine [(9,9);(12,12)]] in
+  let b := OFeature (OColl 3 [OPoint (3,3); ORect ((7,7),(10,10)); OLine [(20,20);(22,20);(22,22)]]) in
+  obj_wf a /\ obj_wf b /\
+  (forall x y, In x (sleaves a) -> In y (sleaves b) -> no_hole_pair x y) /\
+  o_intersects a b = true /\ o_intersects b a = true.
+Proof.
+  cbv zeta. split; [cbn; tauto|]. split; [cbn; unfold rect_wf; cbn; lia|]. split.
+  - cbn [sleaves flat_map app poly_shape]. intros x y [<-|[<-|[]]] [<-|[<-|[<-|[]]]]; cbn; auto.
+  - split; vm_compute; reflexivity.
+Qed.
+
 (* a Rect used as a ring is the ring of its five corner points: the same record, so every
    ring-level algorithm answers alike on both *)
 Theorem C09_rect_is_its_five_point_ring : forall q, rect_wf q ->
@@ -83,6 +108,8 @@ Proof. repeat split; try (cbn; lia); vm_compute; reflexivity. Qed.
 
 Print Assumptions C09_intersects_implies_rects_meet.
 Print Assumptions C09_geometry_intersects_symmetric.
+Print Assumptions C09_intersects_symmetric.
+Print Assumptions C09_intersects_is_leafwise.
 Print Assumptions C09_rect_is_its_five_point_ring.
 Print Assumptions C09_rect_poly_is_five_point_polygon.
 Print Assumptions C09_contains_implies_rect_covers.
